@@ -208,22 +208,15 @@ theorem found_eq_singleton {g : GL} (h : g.WF) {kv : Val × List Val} (hkv : kv 
           (List.mem_cons_of_mem _ hb)) hm'
   exact key g.content h2 h4 hkv
 
-/-- Full statement: `get_group` of a grouped value is the leader of its (unique) group. -/
-def C13_getGroup_agrees_full : Prop :=
-  ∀ (g : GL), g.WF → ∀ kv ∈ g.content, ∀ v ∈ kv.2, g.getGroup (.val v) = .val kv.1
-
-/-- What holds of the code as it is: only when the leader is *truthy* (`any(found)`). -/
-theorem C13_getGroup_agrees_partial {g : GL} (h : g.WF) {kv : Val × List Val} (hkv : kv ∈ g.content)
-    {v : Val} (hv : v ∈ kv.2) (ht : kv.1.truthy = true) : g.getGroup (.val v) = .val kv.1 := by
+/-- `get_group` of a grouped value is the leader of its (unique) group — for every leader,
+    including the falsy ones (`0`, `""`) on which the unrepaired code failed. -/
+theorem C13_getGroup_agrees {g : GL} (h : g.WF) {kv : Val × List Val} (hkv : kv ∈ g.content)
+    {v : Val} (hv : v ∈ kv.2) : g.getGroup (.val v) = .val kv.1 := by
   unfold getGroup
-  simp [found_eq_singleton h hkv hv, ht]
+  simp only [found_eq_singleton h hkv hv]
 
-/-- … and the full statement is false of the code as it is: leader `0` with member `1`. -/
-theorem C13_getGroup_counterexample : ¬ C13_getGroup_agrees_full := by
-  intro h
-  have := h ⟨[.num 0], [(.num 0, [.num 1, .num 0])]⟩ (by decide) (.num 0, [.num 1, .num 0])
-    (by decide) (.num 1) (by decide)
-  revert this
+/-- regression witness of the repaired defect: leader `0`, member `1` -/
+example : (⟨[.num 0], [(.num 0, [.num 1, .num 0])]⟩ : GL).getGroup (.val (.num 1)) = .val (.num 0) := by
   decide
 
 /-- `get_group` of an unknown value (or of NaN) is the value itself. -/
